@@ -54,6 +54,17 @@ class CtlLinopOk:
 '''
 
 
+def _load_known_docs():
+    import json, os
+    try:
+        return json.load(open(os.path.join(os.path.dirname(os.path.abspath(__file__)), "..", "known_docs.json")))
+    except OSError:
+        return {}
+
+
+_KNOWN_DOCS = _load_known_docs()
+
+
 def array_params(func):
     """parameters documented (Args:) as arrays; for _apply/_prox the data parameters"""
     doc = func.docstring
@@ -62,6 +73,7 @@ def array_params(func):
         m = re.search(r"^\s*%s\s*\(([^)]*)\)" % re.escape(p), doc, re.M)
         if m and "array" in m.group(1).lower():
             out.add(p)
+    out |= set(_KNOWN_DOCS.get("array_params", {}).get(func.qual, ())) & set(func.params)   # what the pinned documentation said (survives docstring rewrites)
     if func.name == "_apply":
         out.add("input")
     if func.name == "_prox":
